@@ -43,6 +43,7 @@ func newInterp(w *Worker) *Interp {
 		funcsHit: map[*ssa.Function]struct{}{},
 		opaque:   map[string]*Term{},
 		varBound: map[int32]uint64{},
+		known:    map[*Term]bool{},
 		swBudget: w.cfg.SwitchBudget,
 	}
 	if w.intrCache != nil {
@@ -83,6 +84,7 @@ func (in *Interp) runHarnessOnce(name string) (status PathStatus, msg string) {
 		panic(engineError{"no harness function " + name + " in " + spec.Pkg})
 	}
 	in.timeNondet = spec.TimeND
+	in.randNondet = spec.RandND
 	defer func() {
 		r := recover()
 		if r != nil {
@@ -146,10 +148,14 @@ func panicID(msg string) string {
 			where = where[s+1:]
 		}
 	}
+	// message class: everything before the first '[' (run-time errors carry
+	// concrete indexes there) and at most 60 characters
+	if b := strings.Index(msg, "["); b >= 0 {
+		msg = msg[:b]
+	}
 	if len(msg) > 60 {
 		msg = msg[:60]
 	}
-	// drop concrete numbers
 	clean := make([]rune, 0, len(msg))
 	for _, r := range msg {
 		if r >= '0' && r <= '9' {
